@@ -25,7 +25,8 @@ if [ "${1:-}" = "--setup" ]; then
   build_libs || { echo "setup: shim build failed"; exit 1; }
   build_plain || { echo "setup: build failed"; exit 1; }
   build_race || { echo "setup: race build failed"; exit 1; }
-  build/bin/vcheck SHIM quick || { echo "setup: shim self-test failed"; exit 1; }
+  build/bin/vcheck SHIM quick >build/scratch/shim-selftest.log 2>&1 || { cat build/scratch/shim-selftest.log; echo "setup: shim self-test failed"; exit 1; }
+  rm -f evidence/SHIM.json
   echo "setup ok"
   exit 0
 fi
